@@ -14,6 +14,8 @@ type Source struct {
 	replay    []uint32
 	pos       int
 	replaying bool
+	init      uint64
+	aux       *Source
 }
 
 func mix(z uint64) uint64 {
@@ -32,12 +34,44 @@ func Derive(seed uint64, label string) uint64 {
 
 // New returns the PRNG-backed stream (seed,label).
 func New(seed uint64, label string) *Source {
-	return &Source{state: Derive(seed, label)}
+	d := Derive(seed, label)
+	return &Source{state: d, init: d}
 }
 
 // Replay returns a Source that replays tape and then answers 0 forever.
 func Replay(tape []uint32) *Source {
 	return &Source{replay: tape, replaying: true}
+}
+
+// ReplayAux is Replay with the auxiliary tape (see Aux) given as well.
+func ReplayAux(tape, aux []uint32) *Source {
+	s := Replay(tape)
+	s.aux = Replay(aux)
+	return s
+}
+
+// Aux returns the auxiliary stream that belongs to s: an independent stream
+// with its own tape, for decisions added to a workload later whose draws must
+// not move the cells of the main tape (older replay files keep their meaning;
+// their auxiliary tape is empty, so every auxiliary draw answers 0).
+func (s *Source) Aux() *Source {
+	if s.aux == nil {
+		if s.replaying {
+			s.aux = Replay(nil)
+		} else {
+			d := mix(s.init ^ 0x6a09e667f3bcc909)
+			s.aux = &Source{state: d, init: d}
+		}
+	}
+	return s.aux
+}
+
+// AuxTape returns the choices made on the auxiliary stream (nil if unused).
+func (s *Source) AuxTape() []uint32 {
+	if s.aux == nil {
+		return nil
+	}
+	return s.aux.tape
 }
 
 func (s *Source) next() uint64 {
